@@ -548,6 +548,28 @@ class Explorer:
         st = node.ast
         if node.kind != "stmt":
             return env
+        if isinstance(st, ast.Assign) and len(st.targets) == 1 and isinstance(st.targets[0], ast.Name) and isinstance(st.value, ast.Call) \
+                and isinstance(st.value.func, ast.Attribute) and st.value.func.attr in ("pop", "popleft") and not st.value.keywords:
+            # `x = seq.popleft()` / `seq.pop()` / `seq.pop(0)` on a tracked sequence: the element is taken out
+            c = st.value
+            k = self.key_of(c.func.value)
+            tk = self.key_of(st.targets[0])
+            if k is not None and k not in self.frozen and k in env and isinstance(env[k], tuple) and tk is not None:
+                seq = env[k]
+                args = [self.ev(a, env) for a in c.args]
+                idx = 0 if c.func.attr == "popleft" else (args[0] if args else -1)
+                new = dict(env)
+                if not isinstance(idx, int) or isinstance(idx, bool) or (c.func.attr == "popleft" and args):
+                    new[k] = UNKNOWN
+                    new[tk] = UNKNOWN
+                    return new
+                if not seq or not (-len(seq) <= idx < len(seq)):
+                    new["__raise__"] = "IndexError"
+                    return new
+                l = list(seq)
+                new[tk] = l.pop(idx)
+                new[k] = tuple(l)
+                return new
         if isinstance(st, ast.Assign) and len(st.targets) == 1 and isinstance(st.targets[0], ast.Subscript):
             # item store into a tracked dict: `kwargs["type"] = v`
             t = st.targets[0]
@@ -590,6 +612,16 @@ class Explorer:
             return new if new is not None else env
         if isinstance(st, ast.Expr) and isinstance(st.value, ast.Call) and isinstance(st.value.func, ast.Attribute):
             c = st.value
+            recv0 = self.ev(c.func.value, env)
+            if isinstance(recv0, SpecObj) and callable(getattr(recv0, c.func.attr, None)) and not c.keywords:
+                # a method of a specification-side stand-in (defined by the rule): run it for its recording effect
+                args = [self.ev(a, env) for a in c.args]
+                if not any(a is UNKNOWN for a in args):
+                    try:
+                        getattr(recv0, c.func.attr)(*args)
+                    except Exception:
+                        pass
+                return env
             k = self.key_of(c.func.value)
             if k is not None and k not in self.frozen and k in env and isinstance(env[k], dict):
                 # in-place change of a tracked dict
@@ -772,6 +804,15 @@ class Explorer:
                     continue
             env2 = self.apply(node, env)
             explicit_raise = node.always_raises
+            if "__raise__" in env2:
+                # the statement raises for this valuation (e.g. pop from an empty sequence): only its exception edges
+                env2 = dict(env2)
+                exc_name = env2.pop("__raise__")
+                targets = [b for b, l in node.out if l == "exc"]
+                hs = [b for b in targets if b.kind == "handler" and (b.ast.type is None or exc_name in ast.unparse(b.ast.type) or any(x in ast.unparse(b.ast.type) for x in ("LookupError", "Exception", "BaseException")))]
+                for b in (hs[:1] or targets):
+                    stack.append((b, env2, events, path, None))
+                continue
             for b, l in node.out:
                 if only_label is not None and l != only_label:
                     continue
